@@ -20,6 +20,7 @@ for d in sorted(glob.glob("/verif/seeded/*")):
     conf = m.get("confirm", {}).get("confirmed")
     res = []
     for pid, r in sorted(m.get("checks", {}).items()):
+        pid = pid.rstrip("+")
         if not m.get("breaks"):
             verdict = "no alarm" if r.get("exit") == 0 else ("exit %s (inconclusive)" % r.get("exit") if r.get("exit") == 2 else "exit %s — FALSE ALARM" % r.get("exit"))
         elif r.get("detected"):
